@@ -999,19 +999,29 @@ class SoftwareSwitchBase (object):
                             dp_desc=type(self).__name__)
 
 
+  def _unwire_match (self, match):
+    """
+    Wildcards the fields of a stats request's match that are to be ignored
+    (those whose prerequisites are not specified), as is done for flow_mods
+    """
+    match.wildcards = match._normalize_wildcards(
+        match._unwire_wildcards(match.wildcards))
+    return match
+
   def _stats_flow (self, ofp, connection):
     if ofp.body.table_id not in (TABLE_ALL, 0):
       return [] # No flows for other tables
     out_port = ofp.body.out_port
     if out_port == OFPP_NONE: out_port = None # Don't filter
-    return self.table.flow_stats(ofp.body.match, out_port)
+    return self.table.flow_stats(self._unwire_match(ofp.body.match), out_port)
 
   def _stats_aggregate (self, ofp, connection):
     if ofp.body.table_id not in (TABLE_ALL, 0):
       return ofp_aggregate_stats() # No flows for other tables
     out_port = ofp.body.out_port
     if out_port == OFPP_NONE: out_port = None # Don't filter
-    return self.table.aggregate_stats(ofp.body.match, out_port)
+    return self.table.aggregate_stats(self._unwire_match(ofp.body.match),
+                                      out_port)
 
   def _stats_table (self, ofp, connection):
     # Some of these may come from the actual table(s) in the future...
